@@ -19,21 +19,24 @@ RULE = ('full product of shapes x charge-vector pairs over a 3-letter alphabet x
         '{complex,real,rankdef,degenerate,dyadic,zero} x tolerance set (incl. exact cumulative weights 1/4,1/2,3/4 of dyadic spectra); '
         'two-site tensor split over d0,d1,D0,D2 in {1,2} x charges x 3 distributions; non-trivial = non-zero matrix with a shared charge')
 BUDGET = {'quick': 400, 'thorough': 3000}
-KINDS = ['complex', 'real', 'rankdef', 'zeroblock', 'degenerate', 'dyadic', 'wide', 'zero', 'tiny', 'large']
+KINDS = ['complex', 'real', 'rankdef', 'zeroblock', 'degenerate', 'dyadic', 'wide', 'zero', 'tiny', 'large', 'multiscale']
 SCALES = {'tiny': 2.0 ** -60, 'large': 2.0 ** 60}
 TOLS = [0.0, 1e-20, 1e-12, 0.1, 0.25, 0.5, 0.75, 0.9, 0.2499, 0.2501]
 DELTA = 1e-12
 
 
-def oracle_spectrum(A, q0, q1):
-    """Per-charge dense SVD done here: multiset of singular values."""
-    sig = []
+def oracle_spectrum(A, q0, q1, with_etas=False):
+    """Per-charge dense SVD done here: multiset of singular values (and, on request, the absolute accuracy 8 eps sigma_max(sector)
+    that a backward-stable SVD of each sector guarantees for them)."""
+    sig, etas = [], []
     for q in np.unique(q0):
         r = np.where(q0 == q)[0]
         c = np.where(q1 == q)[0]
         if len(r) and len(c):
-            sig.extend(np.linalg.svd(A[np.ix_(r, c)], compute_uv=False).tolist())
-    return sig
+            sq = np.linalg.svd(A[np.ix_(r, c)], compute_uv=False).tolist()
+            sig.extend(sq)
+            etas.extend([8 * 2.220446049250313e-16 * max(sq)] * len(sq))
+    return (sig, etas) if with_etas else sig
 
 
 def judge_split(ctx, A0, u, s, v, q, q0, q1, tol, zero_ok=True):
@@ -49,8 +52,8 @@ def judge_split(ctx, A0, u, s, v, q, q0, q1, tol, zero_ok=True):
     if nrmA2 == 0:
         ctx.close(prod, A0, 'zero_matrix_product_zero')
         return
-    sig = oracle_spectrum(A0, q0, q1)
-    k_lo, k_hi, exact = kept_range(sig, tol, DELTA)
+    sig, etas = oracle_spectrum(A0, q0, q1, with_etas=True)
+    k_lo, k_hi, exact = kept_range(sig, tol, DELTA, etas=etas)
     if exact:
         ctx.cls('exact_boundary_eligible')
         if any(abs(tol - j / len(sig)) == 0 for j in range(1, len(sig))):
@@ -90,7 +93,12 @@ def run_case(case, ctx):
     q0, q1 = f(q0l), f(q1l)
     # 'tiny' / 'large': generic entries times an exact power of two (the split is judged after undoing the scaling)
     sc = SCALES.get(kind, 1.0)
-    A = palette.block_matrix(ctx.rng(0), q0, q1, 'complex' if kind in SCALES else kind) * sc
+    A = palette.block_matrix(ctx.rng(0), q0, q1, 'complex' if kind in SCALES or kind == 'multiscale' else kind) * sc
+    if kind == 'multiscale':
+        # charge sectors of wildly different magnitude: the sector of the j-th distinct charge is multiplied by 2^(-60 j), so its
+        # relative weight 2^(-120 j) lies far below eps^2 and far above the underflow threshold; the rule stays a relative one
+        rank = {q: j for j, q in enumerate(sorted(set(q0.tolist()) | set(q1.tolist())))}
+        A = A * np.array([2.0 ** (-60 * rank[q]) for q in q0.tolist()])[:, None]
     if kind in ('real', 'dyadic'):
         A = A.real.copy()
     # memory layout of the argument: C-contiguous, Fortran-ordered, or a non-contiguous view (keyed by the case, all three occur)
